@@ -723,6 +723,13 @@ def query_to_map(text):
 @functools.lru_cache()
 def urljoin(base_url, url, allow_fragments=True):
     '''Join URLs like ``urllib.parse.urljoin`` but allow scheme-relative URL.'''
+    if not allow_fragments and url.startswith('#'):
+        # A fragment-only reference points into the base document itself
+        # (RFC 3986 section 5.2). Without fragment parsing the standard
+        # library treats ``#top`` as a relative path and replaces the last
+        # path segment of the base URL.
+        return base_url.partition('#')[0] + url
+
     if url.startswith('//') and len(url) > 2:
         scheme = base_url.partition(':')[0]
         if scheme:
